@@ -3,7 +3,7 @@
 set -e
 cd "$(dirname "$0")/harness"
 export GOFLAGS=-mod=mod GOPROXY=off GOSUMDB=off GOTOOLCHAIN=local
-go1.26.8 build ./... 
+go1.26.8 build -tags verif ./...
 go1.26.8 vet -tags verif ./... >/dev/null 2>&1 || true
 for d in c*/; do go1.26.8 test -tags verif -c -o /dev/null ./$d >/dev/null 2>&1 || true; done
 echo setup done
